@@ -117,7 +117,7 @@ def obs_coq(o):
 
 def case_to_coq(c):
     if c["kind"] == "V":
-        return "(CV %s %s %s)" % (L.nat(c["n"]), op_coq(c["op"]), L.lst(pt_coq(t) for t in c["ops"]))
+        return "(CV %s %s %s %s)" % (L.nat(c["n"]), L.z(c.get("d", 0)), op_coq(c["op"]), L.lst(pt_coq(t) for t in c["ops"]))
     return "(CR %s %s %s %s)" % (L.nat(c["n"]), pt_coq(c["a"]), pt_coq(c["b"]), L.lst(obs_coq(o) for o in c["obs"]))
 
 
@@ -190,6 +190,13 @@ def add_empties(rng, t, depth):
 
 
 def gen_v(rng, kind=None):
+    c = gen_v0(rng, kind)
+    # tensor-level operands may have a non-zero leaf default (stored zeros are then ordinary values)
+    c["d"] = rng.choice([0, 0, 7, 7, 3]) if c["n"] > 0 and c["op"][0] != "unflatten" else 0
+    return c
+
+
+def gen_v0(rng, kind=None):
     kind = kind or rng.choice(VKINDS)
     if kind == "copy":
         n = rng.choice([0, 0, 1, 2, 3])
@@ -221,7 +228,8 @@ def gen_v(rng, kind=None):
             if flatten_lit(t):
                 break
         else:
-            t = gen_tree(rng, depth)
+            # tensor level: an all-empty tensor is legal (swapRanks copies the root); fiber level needs an element
+            t = gen_tree(rng, depth) if n else [[[1], [[[2], 5]]]]
         return {"kind": "V", "n": n, "op": ["swap"], "ops": [t]}
     if kind == "arith":
         sub = rng.choice(["adds", "muls", "addf", "mulf"])
@@ -292,6 +300,7 @@ def describe(c):
     if c["kind"] == "V":
         op = c["op"][0] + ("-" + c["op"][1] if c["op"][0] in ("split", "arith") else "")
         return {"family": "value", "op": op, "level": "tensor" if c["n"] else "fiber",
+                "default": c.get("d", 0),
                 "explicit_default": any(U.has_explicit_default(unconv_any(t), 0) for t in c["ops"])}
     return {"family": "read-only", "ranks": c["n"], "observers": len(c["obs"]),
             "has_union_or_eq": any(o[0] in ("union", "xor", "eq") for o in c["obs"])}
@@ -358,7 +367,7 @@ def run_v(case):
     w = X.World()
     if n:
         flat = X.lit_width(case["ops"][0]) if o[0] == "unflatten" else 1
-        xs = [X.build_tensor(t, n, flat) for t in case["ops"]]
+        xs = [X.build_tensor(t, n, flat, case.get("d", 0)) for t in case["ops"]]
     else:
         shape = o[6] if o[0] == "split" else None
         xs = [X.build_fiber(t, shape) for t in case["ops"]]
